@@ -58,6 +58,52 @@ def cm_text(t, top=True):
     return "(" + sep.join(cm_text(k, False) for k in t[1]) + ")" + t[2]
 
 
+def is_deterministic(t):
+    """1-unambiguity (XML 1.0 appendix E) by the Glushkov construction: no two positions with the same
+    name compete in first(E) or in follow(p)."""
+    names, follow = [], {}
+
+    def go(t):
+        if t[0] == "el":
+            p = len(names)
+            names.append(t[1])
+            follow[p] = set()
+            nul, first, last = False, {p}, {p}
+        elif t[0] == "seq":
+            nul, first, last = True, set(), set()
+            for k in t[1]:
+                n2, f2, l2 = go(k)
+                for p in last:
+                    follow[p] |= f2
+                if nul:
+                    first = first | f2
+                last = (last | l2) if n2 else set(l2)
+                nul = nul and n2
+        else:
+            nul, first, last = False, set(), set()
+            for k in t[1]:
+                n2, f2, l2 = go(k)
+                nul, first, last = nul or n2, first | f2, last | l2
+        if t[2] in ("*", "+"):
+            for p in last:
+                follow[p] |= first
+        if t[2] in ("?", "*"):
+            nul = True
+        return nul, first, last
+
+    _, first, _ = go(t)
+
+    def clash(ps):
+        seen = set()
+        for p in ps:
+            if names[p] in seen:
+                return True
+            seen.add(names[p])
+        return False
+
+    return not clash(first) and not any(clash(f) for f in follow.values())
+
+
 SHAPES = [  # frequent real-world shapes and the corner cases around the mapper's occurrence handling
     lambda n: ["seq", [["el", n[0], ""], ["el", n[1], ""]], "*"],
     lambda n: ["seq", [["el", n[0], ""], ["el", n[1], ""]], "+"],
@@ -189,13 +235,19 @@ def gen_dtd(rng, flavour=None):
             cand = list(later)
             if i > 0 and rng.random() < 0.15:
                 cand.append(rng.choice(names[:i + 1]))     # recursion; made optional below
-            if rng.random() < 0.45 and len(cand) >= 2:
-                sh = list(cand)
-                rng.shuffle(sh)
-                el["cm"] = rng.choice(SHAPES)(sh)
+            for _try in range(200):
+                if rng.random() < 0.45 and len(cand) >= 2:
+                    sh = list(cand)
+                    rng.shuffle(sh)
+                    cm = rng.choice(SHAPES)(sh)
+                else:
+                    cm = gen_cm(rng, cand, rng.choice([1, 2, 2, 3]))
+                cm = libxml2_normalise(guard_recursion(cm, set(names[:i + 1])))
+                if is_deterministic(cm):
+                    break
             else:
-                el["cm"] = gen_cm(rng, cand, rng.choice([1, 2, 2, 3]))
-            el["cm"] = libxml2_normalise(guard_recursion(el["cm"], set(names[:i + 1])))
+                cm = ["el", cand[0], "*"]
+            el["cm"] = cm
         elements.append(el)
     # attributes
     for i, el in enumerate(elements):
